@@ -155,8 +155,17 @@ def mkEnv (p : Panel) (sc : Scenario) : Env :=
   { single := p.single, delayUs := sc.delay.getD 10000, fault := sc.fault, sched := sc.sched,
     busy := 0, raise := sc.raise, busyLvl := sc.busyLvl }
 
+/-- `scribble=1`: the harness complements every buffer an operation borrowed as soon as the
+    operation returns.  A driver field that aliases such a buffer (epd2in9d `old_data`) therefore
+    designates the complemented bytes from then on. -/
+def scribbleAfter (scribble : Bool) (acts : List Act) (d d' : DState) : DState :=
+  let sentinel : Bytes := [0xA5, 0x5A, 0xA5]
+  if scribble ∧ (applyUpds { d with oldData := sentinel } acts).oldData ≠ sentinel then
+    { d' with oldData := d'.oldData.map (~~~ ·) }
+  else d'
+
 /-- run the ops of a scenario on the model.  `drv = none` until `new` succeeded. -/
-def runOps (p : Panel) : List Op → Env → Option DState → List OpTrace
+def runOps (p : Panel) (scribble : Bool := false) : List Op → Env → Option DState → List OpTrace
   | [], _, _ => []
   | op :: ops, e, drv =>
     match op, drv with
@@ -166,7 +175,7 @@ def runOps (p : Panel) : List Op → Env → Option DState → List OpTrace
       | some acts =>
         let r := runActs e p.init acts
         match r.2.2.2 with
-        | .ok => { evs := r.1, res := .ok, bg := some r.2.2.1.bg, d := p.init } :: runOps p ops r.2.1 (some r.2.2.1)
+        | .ok => { evs := r.1, res := .ok, bg := some r.2.2.1.bg, d := p.init } :: runOps p scribble ops r.2.1 (some r.2.2.1)
         | x => [{ evs := r.1, res := .ofRes x, bg := none }]
     | _, none => [{ evs := [], res := .unsup, bg := none }]
     | _, some d =>
@@ -176,7 +185,7 @@ def runOps (p : Panel) : List Op → Env → Option DState → List OpTrace
         let r := runActs e d acts
         let t : OpTrace := { evs := r.1, res := .ofRes r.2.2.2, bg := some r.2.2.1.bg, d := d }
         match r.2.2.2 with
-        | .ok | .err => t :: runOps p ops r.2.1 (some r.2.2.1)
+        | .ok | .err => t :: runOps p scribble ops r.2.1 (some (scribbleAfter scribble acts d r.2.2.1))
         | _ => [t]
 
 /-! ## canonical form of a trace (what is compared with the implementation) -/
